@@ -202,9 +202,13 @@ pub fn check_with_ending(v: &View, sc: Option<&Scenario>, quiescent: bool, t_end
             }
             (Op::SendReset, Phase::Ret) => {
                 // a reset by the sender of a body: the body is cut
+                // (b == 2: reset after the complete message had been submitted - what is still queued may be cut too)
                 let b = body_sent(s, a.side);
                 b.sender_aborted = true;
                 stats.inc("send_reset_calls");
+                if a.b == 2 {
+                    stats.inc("send_reset_after_complete_message");
+                }
             }
             (Op::DropSend, Phase::Ret) if a.a == 1 => {
                 let b = body_sent(s, a.side);
